@@ -50,7 +50,7 @@ def all_harnesses():
                     passes = (ln + 2) * 2 + nb + 2
                     hs.append(Harness(f"c06_{key}_c{cap}_l{ln}_o{''.join(map(str, perm))}",
                                       f"crate::c06::run_graph(crate::c06::{CONST[sid]}, &[{', '.join(map(str, perm))}], {ln}, {cap})",
-                                      unwind=max(passes, 10), unit="Graph::run", stubs=GSTUBS, timeout=1500,
+                                      unwind=max(passes, 28), unit="Graph::run", stubs=GSTUBS, timeout=1500,
                                       shape={"graph": key, "cap": cap, "len": ln, "order": list(perm), "topological_order": topo,
                                              "has_wait_after_move_block": wam}, core=core))
     return hs
